@@ -176,14 +176,15 @@ theorem levelG_eq_interp (a : DirAtoms) (d : Nat) (W : Bool) :
 /-- The verdict of the level at `l`. -/
 def dirStep (c : Ctx) (l : Loc) (e : Elem) : DirStep := (dirAtoms c l e).step
 
-/-- One level of the walk. -/
-theorem matchDirWalk_cons (c : Ctx) (d : Nat) (l : Loc) (ps : List Loc) :
-    matchDirWalk c d (l :: ps) =
+/-- One level of the walk.  An element outside the XHTML namespace never matches itself
+    (`inherit = false`: it is the subject) and is skipped as an ancestor (`inherit = true`). -/
+theorem matchDirWalk_cons (c : Ctx) (d : Nat) (inh : Bool) (l : Loc) (ps : List Loc) :
+    matchDirWalk c d inh (l :: ps) =
       match l.elem? with
       | none => false
       | some e =>
-        if !c.isHtmlTag e then false
-        else (dirStep c l e).interp d (matchDirWalk c d ps) := by
+        if !c.isHtmlTag e then inh && matchDirWalk c d true ps
+        else (dirStep c l e).interp d (matchDirWalk c d true ps) := by
   rw [matchDirWalk]
   cases l.elem? with
   | none => rfl
@@ -195,8 +196,22 @@ theorem matchDirWalk_cons (c : Ctx) (d : Nat) (l : Loc) (ps : List Loc) :
       rw [dirStep, ← levelG_eq_interp]
       rfl
 
-theorem matchDirWalk_nil (c : Ctx) (d : Nat) : matchDirWalk c d [] = false := by
+theorem matchDirWalk_nil (c : Ctx) (d : Nat) (inh : Bool) : matchDirWalk c d inh [] = false := by
   rw [matchDirWalk]
+
+/-- For an HTML-namespace head the `inherit` flag is irrelevant. -/
+theorem matchDirWalk_html_head (c : Ctx) (d : Nat) (inh : Bool) (l : Loc) (e : Elem) (ps : List Loc)
+    (he : l.elem? = some e) (hh : c.isHtmlTag e = true) :
+    matchDirWalk c d inh (l :: ps) = matchDirWalk c d true (l :: ps) := by
+  rw [matchDirWalk_cons, matchDirWalk_cons, he]
+  simp only [hh, Bool.not_true, Bool.false_eq_true, if_false]
+
+/-- A subject outside the XHTML namespace matches no directionality. -/
+theorem matchDirWalk_foreign_subject (c : Ctx) (d : Nat) (l : Loc) (e : Elem) (ps : List Loc)
+    (he : l.elem? = some e) (hh : c.isHtmlTag e = false) :
+    matchDirWalk c d false (l :: ps) = false := by
+  rw [matchDirWalk_cons, he]
+  simp only [hh, Bool.not_false, if_true, Bool.false_and]
 
 /-- Every definite verdict is `ltr` or `rtl`. -/
 theorem step_val (a : DirAtoms) (hfs : ∀ x, a.fs = some x → IsDirVal x)
@@ -279,13 +294,16 @@ theorem step_root (a : DirAtoms) (hr : a.isRoot = true) : a.step ≠ .up := by
 theorem dirStep_root (c : Ctx) (l : Loc) (e : Elem) (hr : c.isRoot l = true) : dirStep c l e ≠ .up :=
   step_root (dirAtoms c l e) hr
 
-/-- The walk of `match_dir` bottoms out on a verdict: a prefix of HTML-namespace elements ending in
-    one that answers by itself (in particular: a root). -/
+/-- The walk of `match_dir` (as seen from below: `inherit = true`) bottoms out on a verdict:
+    elements outside the XHTML namespace are skipped, HTML-namespace elements defer until one
+    answers by itself (in particular: a root). -/
 inductive DirChain (c : Ctx) : List Loc → Prop
   | stop (l : Loc) (e : Elem) (ps : List Loc) :
       l.elem? = some e → c.isHtmlTag e = true → dirStep c l e ≠ .up → DirChain c (l :: ps)
   | step (l : Loc) (e : Elem) (ps : List Loc) :
       l.elem? = some e → c.isHtmlTag e = true → DirChain c ps → DirChain c (l :: ps)
+  | skip (l : Loc) (e : Elem) (ps : List Loc) :
+      l.elem? = some e → c.isHtmlTag e = false → DirChain c ps → DirChain c (l :: ps)
 
 theorem DirChain.root {c : Ctx} (l : Loc) (e : Elem) (ps : List Loc)
     (he : l.elem? = some e) (hh : c.isHtmlTag e = true) (hr : c.isRoot l = true) : DirChain c (l :: ps) :=
@@ -293,7 +311,7 @@ theorem DirChain.root {c : Ctx} (l : Loc) (e : Elem) (ps : List Loc)
 
 /-- Along such a chain the two directionalities are complementary. -/
 theorem matchDirWalk_compl (c : Ctx) (ls : List Loc) (h : DirChain c ls) :
-    matchDirWalk c SEL_DIR_LTR ls = !matchDirWalk c SEL_DIR_RTL ls := by
+    matchDirWalk c SEL_DIR_LTR true ls = !matchDirWalk c SEL_DIR_RTL true ls := by
   induction h with
   | stop l e ps he hh hs =>
     rw [matchDirWalk_cons, matchDirWalk_cons, he]
@@ -307,11 +325,14 @@ theorem matchDirWalk_compl (c : Ctx) (ls : List Loc) (h : DirChain c ls) :
     cases hd : dirStep c l e with
     | up => exact ih
     | is x => exact dirVal_compl (dirStep_val c l e x hd)
+  | skip l e ps he hh _ ih =>
+    rw [matchDirWalk_cons, matchDirWalk_cons, he]
+    simp only [hh, Bool.not_false, if_true, Bool.true_and]
+    exact ih
 
-/-- The hypothesis in list form: every location up to (and including) some root is an element in
-    the XHTML namespace. -/
+/-- The hypothesis in list form: elements (of any namespace) up to an HTML-namespace root. -/
 theorem DirChain_of_root (c : Ctx) (pre : List Loc) (r : Loc) (post : List Loc)
-    (hpre : ∀ p ∈ pre, ∃ e, p.elem? = some e ∧ c.isHtmlTag e = true)
+    (hpre : ∀ p ∈ pre, ∃ e, p.elem? = some e)
     (hr : ∃ e, r.elem? = some e ∧ c.isHtmlTag e = true) (hroot : c.isRoot r = true) :
     DirChain c (pre ++ r :: post) := by
   induction pre with
@@ -319,26 +340,30 @@ theorem DirChain_of_root (c : Ctx) (pre : List Loc) (r : Loc) (post : List Loc)
     obtain ⟨e, he, hh⟩ := hr
     exact DirChain.root r e post he hh hroot
   | cons p pre ih =>
-    obtain ⟨e, he, hh⟩ := hpre p (List.mem_cons_self ..)
-    exact .step p e _ he hh (ih (fun q hq => hpre q (List.mem_cons_of_mem _ hq)))
+    obtain ⟨e, he⟩ := hpre p (List.mem_cons_self ..)
+    have ih' := ih (fun q hq => hpre q (List.mem_cons_of_mem _ hq))
+    cases hh : c.isHtmlTag e with
+    | true => exact .step p e _ he hh ih'
+    | false => exact .skip p e _ he hh ih'
 
-/-- Conversely, when the walk runs off the end of the chain — or meets a non-element or an element
-    outside the XHTML namespace — before any verdict, both directionalities fail. -/
-theorem matchDirWalk_all_up (c : Ctx) (d : Nat) (ls : List Loc)
+/-- Conversely, when every HTML-namespace level defers to its parent (the walk runs off the end of
+    the chain, or meets a non-element), no directionality matches. -/
+theorem matchDirWalk_all_up (c : Ctx) (d : Nat) (inh : Bool) (ls : List Loc)
     (h : ∀ p ∈ ls, ∀ e, p.elem? = some e → c.isHtmlTag e = true → dirStep c p e = .up) :
-    matchDirWalk c d ls = false := by
-  induction ls with
-  | nil => exact matchDirWalk_nil c d
+    matchDirWalk c d inh ls = false := by
+  induction ls generalizing inh with
+  | nil => exact matchDirWalk_nil c d inh
   | cons p ps ih =>
+    have ih' := ih true (fun q hq => h q (List.mem_cons_of_mem _ hq))
     rw [matchDirWalk_cons]
     cases he : p.elem? with
     | none => rfl
     | some e =>
       simp only
       cases hh : c.isHtmlTag e
-      · rfl
+      · simp only [Bool.not_false, if_true, ih', Bool.and_false]
       · simp only [Bool.not_true, Bool.false_eq_true, if_false]
         rw [h p (List.mem_cons_self ..) e he hh]
-        exact ih (fun q hq => h q (List.mem_cons_of_mem _ hq))
+        exact ih'
 
 end SoupVerif.StateLaws
